@@ -393,7 +393,10 @@ def _utils_workload(U, gens, rng, rec):
         elif name == "ANM-ctor":
             fn = lambda M: _s.ANM(M, [None] * len(M), [_s.noise.normal()] * len(M)).A
         else:
-            fn = getattr(U, name)
+            fn = getattr(U, name, None)
+            if fn is None:       # helpers that are not part of any property may disappear in a rewrite
+                rec.count("utils:absent-" + name)
+                continue
         try:
             res = fn(*args)
         except (ValueError, AssertionError):
